@@ -140,7 +140,8 @@ class World:
 		kind = r.choice(["cell-item", "cell-view", "cell-attr-view", "row", "column-slice", "attr-replace", "rename-view", "rename_column", "rename_columns-swap",
 			"v-write", "v-promote", "v-none", "f-write", "dv-write", "sv-write", "mask-write", "mask-write-twice", "ext-replace", "ext-write", "u-cell", "u-rename-move",
 			"t-rename-move", "key-write", "key-none", "derived-rename", "derived-write", "derived-rename",
-			"f-promote-complex", "dv-promote-datetime", "v-write-twice", "v-int-into-float", "f-none", "sv-none", "t-col-promote", "t-col-none", "key-write-twice"])
+			"f-promote-complex", "dv-promote-datetime", "v-write-twice", "v-int-into-float", "f-none", "sv-none", "t-col-promote", "t-col-none", "key-write-twice",
+			"rename_column", "rename_column", "rename-view", "rename_columns-swap", "t-rename-move", "attr-replace", "cell-item"])      # (renames and table-level writes weigh more: most library memos hang on them)
 		t = self.t
 		names = t.column_names()
 
@@ -173,8 +174,9 @@ class World:
 			tgt = next((p for p, x in enumerate(names) if x in ("b", "bb", "Total $", "mean")), None)
 			o = call(lambda: setattr(t.cols()[tgt], "name", new)) if tgt is not None else None
 		elif kind == "rename_column":
-			tgt = next((x for x in names if x in ("d", "dd", "when")), None)
-			o = call(t.rename_column, tgt, r.choice(["d", "dd", "when"])) if tgt else None
+			fam = r.choice([("d", "dd", "when"), ("b", "bb", "Total $", "mean")])
+			tgt = next((x for x in names if x in fam), None)
+			o = call(t.rename_column, tgt, r.choice(fam)) if tgt else None
 		elif kind == "rename_columns-swap":
 			if "a" in names and "g" in names:
 				o = call(t.rename_columns, ["a", "g", "tmp_"], ["tmp_", "a", "g"])      # the swap idiom: net effect is a permutation of existing names
@@ -330,7 +332,7 @@ FAMILIES = {
 		("lshift-table", lambda w: w.t << w.t[0:1]), ("cell", lambda w: w.t[w.n - 1, 1]),
 		("iter-row-sums", lambda w: [r.sum() for r in w.t[_gname(w), _bname(w)]]), ("iter-row-slices", lambda w: [list(r[0:2]) for r in w.t]), ("iter-row-math", lambda w: [list(r * 2) for r in w.t[_gname(w), _bname(w)]]),
 		("two-rows-held", lambda w: (lambda a, b: (tuple(a), tuple(b)))(w.t[0], w.t[w.n - 1])), ("row-held-across-shape", lambda w: (lambda r: (w.t.shape, tuple(r)))(w.t[-1])),
-		("row-by-name", lambda w: [w.t[0][nm] for nm in w.t.column_names() if isinstance(nm, str) and nm.isidentifier() and nm == nm.lower()]), ("rows-after-set_index", lambda w: [tuple(r.copy()) for r in w.t]),
+		("row-by-name", lambda w: [w.t[0][nm] for nm in w.t.column_names() if isinstance(nm, str) and nm.isidentifier() and nm == nm.lower() and not hasattr(Row, nm)]), ("rows-after-set_index", lambda w: [tuple(r.copy()) for r in w.t]),
 	],
 	"C05": [
 		("bit_length", lambda w: w.v.bit_length()), ("to_bytes", lambda w: w.v.to_bytes(4, "big")), ("conjugate", lambda w: w.v.conjugate()), ("is_integer", lambda w: w.f.is_integer()),
